@@ -29,6 +29,11 @@ def run(ck, w):
 
     # ---- 1. one matcher on full apaths ------------------------------------------------------------------
     vd = w.raw("source::Iter::visit_next_directory")
+    # the per-child work may sit in a closure of the function (`dir_iter.filter_map(|de| ..)`): take the body that holds the test
+    for fb_ in lib.family("source::Iter::visit_next_directory"):
+        if events_of(lib, fb_, "excludes::Exclude::matches"):
+            vd = fb_
+            break
     o = ck.ob("C15.1a", "source walk: Exclude::matches is asked about parent_apath.append(child_name)")
     m = events_of(lib, vd, "excludes::Exclude::matches")
     if len(m) != 1:
@@ -217,6 +222,24 @@ def run(ck, w):
                 if kind == "assign" and payload["rv"]["rk"] == "ref":
                     nm = vd.local_names.get(payload["rv"]["pl"]["l"])
             named.append((nm, e))
+        # inside a closure the two queues are captured variables; a child may also be handed on by returning Some((name, entry))
+        for i_, (nm, e) in enumerate(named):
+            if nm is None:
+                for x in flow.origins_x(lib, vd, e.args[0]):
+                    if x[0] in ("upvar", "param") and (x[1] in ("children", "subdir_apaths") or (x[2] and x[2][-1] in ("children", "subdir_apaths"))):
+                        named[i_] = (x[1] if x[1] in ("children", "subdir_apaths") else x[2][-1], e)
+        class _Ret:
+            def __init__(self, bb):
+                self.bb = bb
+            def site(self):
+                return "%s:bb%d" % (vd.file, self.bb)
+        for i_, (nm, e) in enumerate(named):
+            if nm is None and "Vec<apath::Apath>" in (vd.locals[flow.operand_local(e.args[0])] or ""):
+                named[i_] = ("subdir_apaths", e)
+        if vd.kind == "closure" and "children" not in {n for n, e in named}:
+            for bb_, j_, st_ in rules.agg_sites(vd, "std::option::Option", "Some"):
+                if not st_["pl"]["p"] and 0 in flow.result_carriers(vd, st_["pl"]["l"]) and "Entry" in (vd.locals[st_["pl"]["l"]] or ""):
+                    named.append(("children", _Ret(bb_)))
         need = {"children", "subdir_apaths"}
         have = {n for n, e in named}
         if not need <= have:
